@@ -15,7 +15,7 @@ from typing import Dict, List, Optional, Tuple
 
 from ..callgraph import get_resolver
 from ..degree import DegreeAnalysis, Interp, T, INT, ZERO, ONE, HALF, POLY, lfmt
-from ..index import FuncInfo, get_index, norm
+from ..index import FuncInfo, get_index, norm, dotted
 from ..report import Context, AnalysisError
 
 LEVEL = "proof"
@@ -180,5 +180,60 @@ def run(ctx: Context) -> None:
                       f"{lfmt(so.deg)}; a length-n moment is homogeneous of degree n/2 only for 1/2 and 1", "second_order_moments")
     report_issues(ctx, an, "C14", seen)
     ctx.require_floor("typing obligations", n, 25)
+    clause_c(ctx, idx, cls)
     ctx.assume("xxpp_to_xpxp_indices / xpxp_to_xxpp_indices are permutations (degree- and dimension-preserving)")
     ctx.assume("the hafnian / torontonian / Williamson kernels are functions of dimensionless inputs (their arguments are required to have degree 0)")
+
+
+# ================================================================================================ (c)
+
+
+def clause_c(ctx: Context, idx, cls) -> None:
+    """A Gaussian state derived from another one (purification, post-measurement state, copies built by hand) carries
+    that state's configuration: `hbar` lives in the Config, and the constructor falls back to a default Config (hbar = 2)
+    when none is passed, so a derived state built without it reads and writes its moments with a different hbar."""
+    ctx.rule("C14c", "every GaussianState constructed inside the library is given the config (and connector) of the state it is derived from; the constructor's default Config is never relied on")
+    init = cls.methods.get("__init__")
+    if init is None or "config" not in init.all_params():
+        raise AnalysisError("anchor vanished: GaussianState.__init__(..., config=...)")
+    n_sites = 0
+    for m in idx.modules.values():
+        if not m.name.startswith("piquasso."):
+            continue
+        for fn in list(m.functions.values()) + [x for c in m.classes.values() for x in c.methods.values()]:
+            for c in ast.walk(fn.node):
+                if not isinstance(c, ast.Call):
+                    continue
+                target = None
+                if isinstance(c.func, ast.Name):
+                    r = idx.resolve_name(m, c.func.id)
+                    if r is cls:
+                        target = cls
+                elif isinstance(c.func, ast.Attribute) and c.func.attr == "__class__" and isinstance(c.func.value, ast.Name) and c.func.value.id == "self" \
+                        and fn.cls is not None and (fn.cls is cls or fn.cls.is_subclass_of(cls)):
+                    target = cls
+                elif isinstance(c.func, ast.Call) and isinstance(c.func.func, ast.Name) and c.func.func.id == "type" and fn.cls is not None \
+                        and (fn.cls is cls or fn.cls.is_subclass_of(cls)):
+                    target = cls
+                if target is None:
+                    continue
+                n_sites += 1
+                params = [p_ for p_ in init.all_params() if p_ != "self"]
+                bound = {}
+                for p_, a_ in zip(params, c.args):
+                    bound[p_] = a_
+                for k_ in c.keywords:
+                    if k_.arg:
+                        bound[k_.arg] = k_.value
+                key = f"{fn.qualname}|GaussianState(...)|config"
+                cfg = bound.get("config")
+                ok = cfg is not None and not (isinstance(cfg, ast.Constant) and cfg.value is None) and not (
+                    isinstance(cfg, ast.Call) and (dotted(cfg.func) or "").split(".")[-1] == "Config")
+                ctx.obligation("C14c", key, ok, f"{ctx.relpath(fn.file)}:{c.lineno}", config=norm(cfg) if cfg is not None else None)
+                if not ok:
+                    ctx.violation("C14c", key, fn.file, c.lineno,
+                                  f"`{norm(c)[:80]}` constructs a GaussianState "
+                                  + ("without a config" if cfg is None else f"with `{norm(cfg)}`")
+                                  + ": it falls back to a fresh default Config (hbar = 2), so for a parent state with another hbar the derived "
+                                  "state's moments are stored and read with the wrong normalisation", norm(c)[:100])
+    ctx.require_floor("GaussianState constructions inside the library", n_sites, 2)
